@@ -410,6 +410,65 @@ pub fn corpus() -> Vec<Item> {
         spec.lf_global_prefix = Some(dict(true));
         out.push(item("rgb-40x24-splines", &img, vec![write_modular_frame(&img, &spec).bytes], 1));
     }
+    // VarDCT colour with a Modular-coded alpha channel (8 and 12 bit), the second with Gabor + EPF
+    for (name, bits, filters) in [("vardct-40x24-alpha8", 8u32, false), ("vardct-33x17-alpha12-gab-epf", 12, true)] {
+        let mut t = crate::explore::Tape::default();
+        let mut c = crate::c17::cfg_from(&mut t);
+        c.size = if bits == 8 { (40, 24) } else { (33, 17) };
+        c.pattern = 5;
+        let spec = crate::c17::spec_of(&c, 19);
+        out.push(Item { name: name.into(), bytes: spec.write_codestream_with(&jxlw::jpeg::StreamOpts { filters, alpha_bits: bits, ..Default::default() }), frames: 1, keyframes: 1, width: c.size.0 as u32, height: c.size.1 as u32 });
+    }
+    // VarDCT animation: two keyframes with noise (the noise generator is seeded from the number of frames shown before)
+    {
+        let mk = |seed: u64, pattern: u32| {
+            let mut t = crate::explore::Tape::default();
+            let mut c = crate::c17::cfg_from(&mut t);
+            c.size = (40, 24);
+            c.pattern = pattern;
+            crate::c17::spec_of(&c, seed)
+        };
+        let noise = Some([300u32, 250, 200, 150, 100, 80, 60, 40]);
+        let (_, hdr, f0) = mk(21, 5).stream_parts(&jxlw::jpeg::StreamOpts { animation: true, duration: 1, not_last: true, noise, ..Default::default() });
+        let (_, _, f1) = mk(22, 0).stream_parts(&jxlw::jpeg::StreamOpts { animation: true, duration: 1, not_last: true, noise, filters: true, ..Default::default() });
+        let (_, _, f2) = mk(23, 5).stream_parts(&jxlw::jpeg::StreamOpts { animation: true, duration: 1, noise, ..Default::default() });
+        let mut bytes = hdr;
+        bytes.extend_from_slice(&f0);
+        bytes.extend_from_slice(&f1);
+        bytes.extend_from_slice(&f2);
+        out.push(Item { name: "vardct-anim-3kf-noise".into(), bytes, frames: 3, keyframes: 3, width: 40, height: 24 });
+    }
+    // VarDCT frame with a patch dictionary over a Modular reference-only frame
+    {
+        use jxlw::patches::*;
+        let mut t = crate::explore::Tape::default();
+        let mut c = crate::c17::cfg_from(&mut t);
+        c.size = (40, 24);
+        c.pattern = 0;
+        let spec = crate::c17::spec_of(&c, 25);
+        let pb = |mode: u32| PatchBlend { mode, alpha_channel: 0, clamp: false };
+        let refs = vec![
+            PatchRef { ref_idx: 2, x0: 1, y0: 1, w: 7, h: 5, targets: vec![PatchTarget { x: 3, y: 2, blending: vec![pb(PATCH_REPLACE)] }, PatchTarget { x: 30, y: 17, blending: vec![pb(PATCH_ADD)] }] },
+            PatchRef { ref_idx: 2, x0: 0, y0: 0, w: 9, h: 7, targets: vec![PatchTarget { x: 14, y: 9, blending: vec![pb(PATCH_MUL)] }] },
+        ];
+        let dict = write_patches(&refs, 0, &CodeOpts { use_prefix: true, ..Default::default() });
+        let (img, hdr, frame) = spec.stream_parts(&jxlw::jpeg::StreamOpts { patches: Some(dict), ..Default::default() });
+        let mut f0 = FrameHeader::modular_lossless(&img);
+        f0.frame_type = FT_REFERENCE_ONLY;
+        f0.is_last = false;
+        f0.save_as_reference = 2;
+        f0.have_crop = true;
+        f0.width = 9;
+        f0.height = 7;
+        if f0.save_before_ct_signalled(&img) {
+            f0.save_before_ct = true;
+        }
+        let d0 = FrameDesc { alt_tree: None, local_tree: false, fh: f0, channels: planes(9, 7, 3, 255, 2), tree: Node::leaf(5), ans: false, transforms: vec![], toc_rev: false };
+        let mut bytes = hdr;
+        bytes.extend_from_slice(&encode_frame(&img, &d0));
+        bytes.extend_from_slice(&frame);
+        out.push(Item { name: "vardct-40x24-patches".into(), bytes, frames: 2, keyframes: 1, width: 40, height: 24 });
+    }
     // Modular frames with upsampling 2 / 8 (alpha upsampled alike)
     for (name, up, w, h) in [("rgba-up2-21x13", 2u32, 21u32, 13u32), ("rgba-up8-35x18", 8, 35, 18)] {
         let mut img = ImageHeader::simple(w, h, false, 8);
